@@ -75,6 +75,10 @@ class K:
             total += 1
             write(e)
 
+    def seeds(self, s):
+        random.seed(s)
+        np.random.seed(s + 1)
+
     def rej(self):
         if bad:
             raise ValueError("no")
@@ -116,6 +120,12 @@ CASES = [
      dict(func="nested", block="for:0", type="Nat", lenient=True, strict=False, effects={"write": "w"},
           outputs=[("total", "Nat"), ("eff_w", "Bool")]),
      ["(total + 1)", "true"]),
+    ("callee names: the longest listed name wins (`np.random.seed` is not `random.seed`); a listed call no path reaches is "
+     "false under effects_absent_false",
+     dict(func="seeds", type="Nat", effects={"random.seed": "py", "np.random.seed": "np", "th.manual_seed": "torch"},
+          effect_arg={"py": 0, "np": 0}, effects_absent_false=True, strict=False,
+          outputs=[("eff_py", "Bool"), ("effarg_py", "Nat"), ("effarg_np", "Nat"), ("effseq_np_py", "Bool"), ("eff_torch", "Bool")]),
+     ["true", "s", "(s + 1)", "true", "false"]),
     ("raise ends the path",
      dict(func="rej", type="Nat", leaf_types={"bad": "Bool"}, outputs=[("raised", "Bool"), ("ret", "Nat")], no_return="0"),
      ["(if bad then true else false)", "(if bad then 0 else (a + 1))"]),
